@@ -1,15 +1,20 @@
 import E3fpVerif.Model.Metrics
+import E3fpVerif.Model.MetricsDispatch
 import E3fpVerif.Lemmas.MergeSD
 import E3fpVerif.Lemmas.Binary
 import E3fpVerif.Lemmas.Dense
 import E3fpVerif.Lemmas.FpRows
+import E3fpVerif.Lemmas.Dispatch
+import E3fpVerif.Props.C05
 /-!
 # C06 — similarity measures equal their definitions in every representation
 
 Helper lemmas live in `Lemmas/MergeSD.lean` (merge kernel, `sortRow`, `soergelDef` with an empty
 operand), `Lemmas/Binary.lean` (indicator sums, intersection counts, 0/1 rows), `Lemmas/Dense.lean`
-(the dense Soergel loop) and `Lemmas/FpRows.lean` (count dictionaries as rows); all in namespace
-`E3fpVerif.C06L`.
+(the dense Soergel loop), `Lemmas/FpRows.lean` (count dictionaries as rows) and `Lemmas/Dispatch.lean`
+(the public dispatching functions unfolded, rows of a fingerprint in a database, 0/1 rows with explicit
+zeros, empty rows); all in namespace `E3fpVerif.C06L`.  Section 10 is about the calling forms of the
+public functions; its real-number capstone (`routes_agree_real`) is in `Props/C06Real.lean`.
 -/
 namespace E3fpVerif.Props.C06
 open E3fpVerif E3fpVerif.C06L
@@ -540,5 +545,994 @@ example : fpSoergel ⟨.count, 8, 0, [1, 2], [(1, 3), (2, 1)]⟩ ⟨.bit, 8, 0, 
 example : fpPearson ⟨.count, 8, 0, [1, 2], [(1, 3), (2, 1)]⟩ ⟨.bit, 8, 0, [2, 5], []⟩
     = pearsonDef 8 (cntRow ⟨.count, 8, 0, [1, 2], [(1, 3), (2, 1)]⟩) (cntRow ⟨.bit, 8, 0, [2, 5], []⟩) :=
   fp_eq_def_pearson _ _ wf_example_count (wf_example_bit _ (by decide) (by decide)) rfl
+
+
+/-! ## the public dispatching functions (`metrics.__init__`) -/
+
+/-- operands of different length are rejected, whatever their kinds and whichever measure -/
+theorem dispatch_length_mismatch (m : Measure) (a b : Item) (h : a.bits ≠ b.bits) :
+    metricDispatch m a (some b) = .error .bitsValue := by
+  unfold metricDispatch checkPair
+  simp only [bind, Except.bind]
+  rw [if_pos h]
+  rfl
+
+/-- two fingerprints of equal length go to the pairwise formulas unchanged (no cast: the binary
+measures read a count fingerprint through its index set) -/
+theorem dispatch_fp_fp (m : Measure) (f g : Fp) (h : f.bits = g.bits) :
+    metricDispatch m (.fp f) (some (.fp g)) = .ok (.inl (simFp m f g)) := by
+  unfold metricDispatch checkPair checkItem
+  have : ¬ (Item.fp f).bits ≠ (Item.fp g).bits := by simp [Item.bits, h]
+  simp only [bind, Except.bind, this, ↓reduceIte, pure, Except.pure]
+  cases m <;> rfl
+
+/-! ## 10. the calling forms of the public functions
+
+`metricDispatch m a (some b)` with at least one database operand is the matrix of the row measure over the
+operands' rows (`C06L.itemRows`): a database contributes its rows, cast to the bit kind for Tanimoto and
+Dice unless it is a bit database already (`C06L.dbRows`); a lone fingerprint contributes the one row of
+the database it is wrapped into, which has the bit kind for Tanimoto/Dice and the fingerprint's own kind
+for the other three.  Wrapping is never refused (`C06L.add_single`: the wrapper takes the level from the
+fingerprint).  The only way a database operand can be refused is `from_array`'s column-length check during
+the cast (`C06L.Castable`), which the representation invariant `Db.Inv` excludes. -/
+
+/-- a database with rows that satisfies the invariant can be cast -/
+theorem castable_of_inv (t : Option Kind) (d : Db) (h : d.Inv) : Castable t d := by
+  cases t with
+  | none => trivial
+  | some k =>
+    right
+    intro c hc
+    rw [h.col_length c hc, h.names_length]
+
+/-- **fingerprint against database**: one row, its `j`-th entry the row measure of the wrapped
+fingerprint's row against the `j`-th (cast) row of the database -/
+theorem dispatch_fp_db (m : Measure) (f : Fp) (d : Db) (a : List Row) (ha : d.array = some a)
+    (hb : f.bits = d.bits) (hc : Castable (measureCast m) d) :
+    metricDispatch m (.fp f) (some (.db d)) =
+      .ok (.inr [ (dbRows (measureCast m) d).map
+        (fun s => simRows m f.bits (fpRow ((measureCast m).getD f.kind) f) s) ]) :=
+  metricDispatch_matrix m (.fp f) (.db d) f.bits rfl (by simp [Item.bits, ha, hb]) (Or.inr rfl) trivial hc
+
+/-- **database against fingerprint**: a one-column matrix -/
+theorem dispatch_db_fp (m : Measure) (f : Fp) (d : Db) (a : List Row) (ha : d.array = some a)
+    (hb : d.bits = f.bits) (hc : Castable (measureCast m) d) :
+    metricDispatch m (.db d) (some (.fp f)) =
+      .ok (.inr ((dbRows (measureCast m) d).map
+        (fun r => [ simRows m d.bits r (fpRow ((measureCast m).getD f.kind) f) ]))) :=
+  metricDispatch_matrix m (.db d) (.fp f) d.bits (by simp [Item.bits, ha]) (by simp [Item.bits, hb])
+    (Or.inl rfl) hc trivial
+
+/-- **database against database** -/
+theorem dispatch_db_db (m : Measure) (d e : Db) (a a' : List Row) (ha : d.array = some a)
+    (ha' : e.array = some a') (hb : d.bits = e.bits)
+    (hc : Castable (measureCast m) d) (hc' : Castable (measureCast m) e) :
+    metricDispatch m (.db d) (some (.db e)) =
+      .ok (.inr ((dbRows (measureCast m) d).map (fun r =>
+        (dbRows (measureCast m) e).map (fun s => simRows m d.bits r s)))) :=
+  metricDispatch_matrix m (.db d) (.db e) d.bits (by simp [Item.bits, ha]) (by simp [Item.bits, ha', hb])
+    (Or.inl rfl) hc hc'
+
+/-- **a single database** (`B=None`) is compared with itself; a single fingerprint likewise -/
+theorem dispatch_single (m : Measure) (d : Db) (a : List Row) (ha : d.array = some a)
+    (hc : Castable (measureCast m) d) :
+    metricDispatch m (.db d) none = metricDispatch m (.db d) (some (.db d)) := by
+  rw [dispatch_db_db m d d a a ha ha rfl hc hc, metricDispatch_single_db m d a ha hc]
+
+theorem dispatch_single_fp (m : Measure) (f : Fp) :
+    metricDispatch m (.fp f) none = metricDispatch m (.fp f) (some (.fp f)) := by
+  rw [dispatch_fp_fp m f f rfl, metricDispatch_single_fp]
+
+/-- wrapping a lone fingerprint is never refused, whatever its level, kind or length: the wrapper creates
+the database with the fingerprint's own level (so `add_fingerprints`' level check cannot fail) -/
+theorem dispatch_wrap_accepts (k : Kind) (f : Fp) :
+    (Db.new k f.level none).add [⟨f, none, []⟩] = (wrapDb k f, none) ∧
+    (wrapDb k f).array = some [fpRow k f] ∧ (wrapDb k f).bits = f.bits :=
+  ⟨add_single k f, rfl, rfl⟩
+
+/-- a database without rows has no length: against a fingerprint it is a length mismatch -/
+theorem dispatch_fp_emptydb (m : Measure) (f : Fp) (d : Db) (h : d.array = none) :
+    metricDispatch m (.fp f) (some (.db d)) = .error .bitsValue ∧
+    metricDispatch m (.db d) (some (.fp f)) = .error .bitsValue := by
+  constructor <;> apply dispatch_length_mismatch <;> simp [Item.bits, h]
+
+attribute [local instance] decEqExcept in
+/-- `Castable` cannot be dropped for the binary measures: a count database whose property column has the
+wrong length is refused by the cast (`from_array`'s check), although Soergel accepts it as it is.
+Such a database violates `Db.Inv`; it cannot be built through the library's functions. -/
+theorem dispatch_uncastable :
+    let d : Db := { fpType := .count, level := 0, name := none, array := some [[(1, 2)]], bits := 8,
+                    fpNames := [none], namesMap := [(none, [0])], props := [("p", [])] }
+    metricDispatch .tanimoto (.db d) none = .error .value ∧
+    metricDispatch .soergel (.db d) none = .ok (.inr [[.q 1]]) := by
+  refine ⟨?_, ?_⟩ <;> decide +kernel
+
+/-! ### databases built from fingerprints -/
+
+/-- the cast asked for by the measure, on one row (`none`: no cast) -/
+def castRowO (t : Option Kind) (r : Row) : Row :=
+  match t with
+  | none => r
+  | some k => castRow k r
+
+theorem castRow_idem (k : Kind) (r : Row) : castRow k (castRow k r) = castRow k r := by
+  unfold castRow
+  rw [List.map_map]
+  exact List.map_congr_left (fun p _ => by simp [castVal_idem])
+
+/-- an accepted `add_fingerprints` on a new database of kind `k`: the rows are the fingerprints' vectors
+in the dtype of `k`; all fingerprints have the database's length and level; the invariant holds -/
+theorem built_db (k : Kind) (lvl : Int) (nm : Option String) (fps : List FpIn)
+    (hok : ((Db.new k lvl nm).add fps).2 = none) :
+    ((Db.new k lvl nm).add fps).1.array = some (fps.map (fun x => fpRow k x.fp)) ∧
+    ((Db.new k lvl nm).add fps).1.fpType = k ∧
+    ((Db.new k lvl nm).add fps).1.Inv ∧
+    (∀ x ∈ fps, x.fp.bits = ((Db.new k lvl nm).add fps).1.bits) ∧
+    (∀ x ∈ fps, x.fp.level = lvl) := by
+  obtain ⟨_, h1, h2, _⟩ := (C05.add_ok_iff _ fps).1 hok
+  have hi := C05.inv_add _ fps (C05.inv_new k lvl nm) hok
+  rw [C05.add_ok_eq _ fps hok] at hi ⊢
+  refine ⟨by simp [Db.addOk, Db.new], rfl, hi, ?_, ?_⟩
+  · intro x hx
+    have := List.any_eq_false.1 h2 x hx
+    simpa [Db.addOk] using this
+  · intro x hx
+    have := List.any_eq_false.1 h1 x hx
+    simpa [Db.new] using this
+
+/-- the rows the measure sees of a built database: each fingerprint's vector in the dtype of the
+database, then cast as the measure asks -/
+theorem dbRows_built (t : Option Kind) (d : Db) (fps : List FpIn)
+    (ha : d.array = some (fps.map (fun x => fpRow d.fpType x.fp))) :
+    dbRows t d = fps.map (fun x => castRowO t (fpRow d.fpType x.fp)) := by
+  cases t with
+  | none => simp [dbRows, ha, castRowO]
+  | some k =>
+    by_cases hk : k = d.fpType
+    · subst hk
+      simp only [dbRows, if_true, ha, Option.getD_some, castRowO]
+      apply List.map_congr_left
+      intro x _
+      unfold fpRow
+      rw [castRow]
+      rw [List.map_map]
+      exact List.map_congr_left (fun i _ => by simp [castVal_idem])
+    · simp [dbRows, hk, ha, castRowO, List.map_map]
+
+/-- **fingerprint against a database built from fingerprints**, spelled out: entry `j` compares the
+vector of `f` (bit dtype for Tanimoto/Dice, own dtype otherwise) with the vector of the `j`-th
+fingerprint in the dtype of the database, cast to bit for Tanimoto/Dice -/
+theorem dispatch_fp_builtdb (m : Measure) (f : Fp) (k : Kind) (lvl : Int) (nm : Option String)
+    (fps : List FpIn) (hok : ((Db.new k lvl nm).add fps).2 = none)
+    (hb : ∀ x ∈ fps, f.bits = x.fp.bits) :
+    metricDispatch m (.fp f) (some (.db ((Db.new k lvl nm).add fps).1)) =
+      .ok (.inr [ fps.map (fun x => simRows m f.bits (fpRow ((measureCast m).getD f.kind) f)
+        (castRowO (measureCast m) (fpRow k x.fp))) ]) := by
+  obtain ⟨h1, h2, h3, h4, _⟩ := built_db k lvl nm fps hok
+  have hne : fps ≠ [] := ((C05.add_ok_iff _ fps).1 hok).1
+  obtain ⟨x0, hx0⟩ := List.exists_mem_of_ne_nil fps hne
+  rw [dispatch_fp_db m f _ _ h1 ((hb x0 hx0).trans (h4 x0 hx0)) (castable_of_inv _ _ h3),
+    dbRows_built _ _ fps (by rw [h1, h2]), h2, List.map_map]
+  rfl
+
+/-! ### one fingerprint per operand: every calling form gives the value of the two-fingerprint form -/
+
+/-- the operand presents the single fingerprint `f`, held in a vector of kind `k`: `f` itself
+(`k` its own kind), or a database of kind `k` whose one row is the vector of `f` -/
+inductive Presents : Item → Fp → Kind → Prop
+  | fp (f : Fp) : Presents (.fp f) f f.kind
+  | db (d : Db) (f : Fp) (ha : d.array = some [fpRow d.fpType f]) (hb : d.bits = f.bits) :
+      Presents (.db d) f d.fpType
+
+/-- the database `add_fingerprints([g])` makes of one fingerprint presents it -/
+theorem presents_single (k : Kind) (nm : Option String) (x : FpIn) :
+    ((Db.new k x.fp.level nm).add [x]).2 = none ∧
+    Presents (.db ((Db.new k x.fp.level nm).add [x]).1) x.fp k ∧
+    ((Db.new k x.fp.level nm).add [x]).1.Inv := by
+  have hok : ((Db.new k x.fp.level nm).add [x]).2 = none := by
+    rw [C05.add_ok_iff]
+    refine ⟨by simp, by simp [Db.badLevel, Db.new], by simp [Db.badBits, Db.expectedBits, Db.fpNum, Db.new], ?_⟩
+    simp only [Db.badProps, Db.expectedProps, Db.fpNum, Db.new, List.any_cons, List.any_nil, Bool.or_false,
+      Nat.lt_irrefl, if_false, List.head?_cons, Option.map_some, Option.getD_some]
+    rw [List.any_eq_false]
+    intro key hkey
+    obtain ⟨c, hc, rfl⟩ := List.mem_map.1 hkey
+    have : ∀ (ps : List (String × PVal)) (c : String × PVal), c ∈ ps → (propLookup ps c.1).isNone = false := by
+      intro ps
+      induction ps with
+      | nil => intro c hc; cases hc
+      | cons q qs ih =>
+        intro c hc
+        obtain ⟨a, v⟩ := q
+        unfold propLookup
+        by_cases e : a = c.1
+        · simp [e]
+        · rw [if_neg e]
+          rcases List.mem_cons.1 hc with rfl | hc
+          · exact absurd rfl e
+          · exact ih c hc
+    have h' := this x.props c hc
+    cases hl : propLookup x.props c.1 with
+    | none => rw [hl] at h'; simp at h'
+    | some v => simp
+  obtain ⟨h1, h2, h3, h4, _⟩ := built_db k x.fp.level nm [x] hok
+  refine ⟨hok, ?_, h3⟩
+  have hp := Presents.db ((Db.new k x.fp.level nm).add [x]).1 x.fp (by rw [h1, h2]; rfl)
+    (h4 x (by simp)).symm
+  rw [h2] at hp
+  exact hp
+
+/-- the row the measure works on: the index set as a 0/1 row for Tanimoto and Dice, the counts otherwise -/
+def canonRow (m : Measure) (f : Fp) : Row :=
+  match measureCast m with
+  | some _ => onesRow f
+  | none => cntRow f
+
+/-- an operand presenting `f` contributes exactly the canonical row, provided the vector of kind `k`
+holds the counts of `f` unchanged and — for the measures that cast to bit — no count is an explicit zero -/
+theorem itemRows_presents (m : Measure) (it : Item) (f : Fp) (k : Kind) (hp : Presents it f k)
+    (hs : StoredAs k f) (hz : measureCast m ≠ none → NoZero f) :
+    itemRows (measureCast m) it = [canonRow m f] := by
+  cases hp with
+  | fp =>
+    unfold itemRows canonRow
+    cases ht : measureCast m with
+    | none => simp only [Option.getD_none]; rw [fpRow_eq_cntRow _ f hs]
+    | some k' =>
+      have : k' = .bit := by cases m <;> simp [measureCast] at ht <;> exact ht.symm
+      subst this
+      simp only [Option.getD_some]
+      rw [fpRow_bit_eq_ones f (hz (by simp [ht]))]
+  | db d _ ha hb =>
+    unfold itemRows canonRow dbRows
+    cases ht : measureCast m with
+    | none => simp only [ha, Option.getD_some]; rw [fpRow_eq_cntRow _ f hs]
+    | some k' =>
+      have : k' = .bit := by cases m <;> simp [measureCast] at ht <;> exact ht.symm
+      subst this
+      have hz' := hz (by simp [ht])
+      simp only [ha, Option.getD_some]
+      by_cases hk : Kind.bit = d.fpType
+      · rw [if_pos hk, ← hk, fpRow_bit_eq_ones f hz']
+      · rw [if_neg hk]
+        simp only [List.map_cons, List.map_nil]
+        rw [castRow_bit_fpRow_eq_ones _ f hs hz']
+
+theorem presents_bits (it : Item) (f : Fp) (k : Kind) (hp : Presents it f k) : it.bits = some f.bits := by
+  cases hp with
+  | fp => rfl
+  | db d _ ha hb => simp [Item.bits, ha, hb]
+
+/-- **every matrix form on two presented fingerprints is the 1×1 matrix of the row measure on the
+canonical rows** (fingerprint/database, database/fingerprint, database/database) -/
+theorem dispatch_presented (m : Measure) (a b : Item) (f g : Fp) (ka kb : Kind)
+    (pa : Presents a f ka) (pb : Presents b g kb) (hb : f.bits = g.bits)
+    (hdb : a.isDb = true ∨ b.isDb = true)
+    (ca : ItemCastable (measureCast m) a) (cb : ItemCastable (measureCast m) b)
+    (sf : StoredAs ka f) (sg : StoredAs kb g)
+    (zf : measureCast m ≠ none → NoZero f) (zg : measureCast m ≠ none → NoZero g) :
+    metricDispatch m a (some b) =
+      .ok (.inr [[ simRows m f.bits (canonRow m f) (canonRow m g) ]]) := by
+  rw [metricDispatch_matrix m a b f.bits (presents_bits a f ka pa)
+    (by rw [presents_bits b g kb pb, hb]) hdb ca cb,
+    itemRows_presents m a f ka pa sf zf, itemRows_presents m b g kb pb sg zg]
+  rfl
+
+/-- the sparse Pearson pair is the definition's pair scaled by `c = b/(b−1)` and `c²`: the value
+`num / sqrt rad` is the same -/
+theorem arrPearson_scaled (b : Nat) (hb : 2 ≤ b) (x y : Row) :
+    arrPearson b x y = (((b : Rat) / ((b : Rat) - 1)) * (pearsonDef b x y).1,
+                        ((b : Rat) / ((b : Rat) - 1)) ^ 2 * (pearsonDef b x y).2) := by
+  have h0 : (b : Rat) ≠ 0 := by
+    intro h; have := Rat.natCast_eq_zero_iff.1 h; omega
+  have h1 : (b : Rat) - 1 ≠ 0 := by
+    intro h
+    have : (b : Rat) = ((1 : Nat) : Rat) := by simp; grind
+    have := Rat.natCast_inj.1 this; omega
+  unfold arrPearson pearsonDef
+  simp only
+  generalize dotQ x y = dxy
+  generalize dotQ x x = dxx
+  generalize dotQ y y = dyy
+  generalize rowSum x = sx
+  generalize rowSum y = sy
+  generalize (b : Rat) = n at *
+  refine Prod.ext ?_ ?_ <;> simp only <;> grind
+
+theorem pearson_scale_pos (b : Nat) (hb : 2 ≤ b) : 0 < (b : Rat) / ((b : Rat) - 1) := by
+  have h2 : ((2 : Nat) : Rat) ≤ (b : Rat) := Rat.natCast_le_natCast.2 hb
+  have h2' : (2 : Rat) ≤ (b : Rat) := by simpa using h2
+  have hpos : 0 < (b : Rat) - 1 := by grind
+  have hb0 : 0 < (b : Rat) := by grind
+  rw [Rat.div_def]
+  exact Rat.mul_pos hb0 (Rat.inv_pos.2 hpos)
+
+/-- the value the matrix forms return for the pair `(f, g)`, in terms of the two-fingerprint form:
+the same `Sim` for Tanimoto, Dice, Soergel and cosine; for Pearson the pair scaled by `c`, `c²`
+(`c = b/(b−1) > 0`), which denotes the same number `num / sqrt rad` -/
+def matrixEntry (m : Measure) (f g : Fp) : Sim :=
+  match m with
+  | .pearson =>
+    let p := fpPearson f g
+    let c : Rat := (f.bits : Rat) / ((f.bits : Rat) - 1)
+    .root (c * p.1) (c ^ 2 * p.2)
+  | _ => simFp m f g
+
+theorem arrDice_ones (f g : Fp) (hf : f.WF) (hg : g.WF) :
+    arrDice (onesRow f) (onesRow g) = fpDice f g := by
+  have h := arrDice_eq_def _ _ (binaryRow_bitRow f) (binaryRow_bitRow g)
+  exact h.trans (fp_eq_def_dice f g hf hg).symm
+
+theorem arrTanimoto_ones (f g : Fp) (hf : f.WF) (hg : g.WF) :
+    arrTanimoto (onesRow f) (onesRow g) = fpTanimoto f g :=
+  ((tanimoto_three_routes f g hf hg).1).symm
+
+/-- **row measure on the canonical rows = two-fingerprint measure** -/
+theorem simRows_canon (m : Measure) (f g : Fp) (hf : f.WF) (hg : g.WF) (hb : f.bits = g.bits)
+    (hn : m = .soergel → NonnegFp f ∧ NonnegFp g) (h2 : m = .pearson → 2 ≤ f.bits) :
+    simRows m f.bits (canonRow m f) (canonRow m g) = matrixEntry m f g := by
+  cases m with
+  | tanimoto =>
+    show Sim.q (arrTanimoto (onesRow f) (onesRow g)) = Sim.q (fpTanimoto f g)
+    rw [arrTanimoto_ones f g hf hg]
+  | dice =>
+    show Sim.q (arrDice (onesRow f) (onesRow g)) = Sim.q (fpDice f g)
+    rw [arrDice_ones f g hf hg]
+  | soergel =>
+    show Sim.q (arrSoergelSparse (cntRow f) (cntRow g)) = Sim.q (fpSoergel f g)
+    obtain ⟨nf, ng⟩ := hn rfl
+    rw [arrSoergelSparse_eq_def_all _ _ (sortedRow_cntRow f hf) (sortedRow_cntRow g hg)
+      (nonnegRow_cntRow f nf) (nonnegRow_cntRow g ng), fp_eq_def_soergel f g hf hg]
+  | cosine =>
+    show Sim.root (arrCosine (cntRow f) (cntRow g)).1 (arrCosine (cntRow f) (cntRow g)).2
+      = Sim.root (fpCosine f g).1 (fpCosine f g).2
+    rw [arrCosine_eq_def, fp_eq_def_cosine f g hf hg]
+  | pearson =>
+    show Sim.root (arrPearson f.bits (cntRow f) (cntRow g)).1 (arrPearson f.bits (cntRow f) (cntRow g)).2 = _
+    rw [arrPearson_scaled f.bits (h2 rfl), ← fp_eq_def_pearson f g hf hg hb]
+    rfl
+
+/-- **Routes agree** — the headline.  `a` and `b` each present one fingerprint (`f`, `g`), at least one
+of them as a database: the public function returns the 1×1 matrix whose entry is `matrixEntry m f g`,
+i.e. the value `metricDispatch m (.fp f) (some (.fp g))` returns (`dispatch_fp_fp`), with the Pearson
+pair rescaled by a positive factor that cancels in `num / sqrt rad`.
+
+Hypotheses: well-formed fingerprints of equal length; the stored vectors hold the counts unchanged
+(`StoredAs`: automatic for bit and float fingerprints in databases of their own kind, integrality
+for count fingerprints); Tanimoto/Dice: no explicit zero counts; Soergel: non-negative counts;
+Pearson: at least two positions; a database operand that needs the bit cast passes `from_array`'s
+column check (`Castable`, implied by `Db.Inv`). -/
+theorem routes_agree (m : Measure) (a b : Item) (f g : Fp) (ka kb : Kind)
+    (pa : Presents a f ka) (pb : Presents b g kb)
+    (hf : f.WF) (hg : g.WF) (hb : f.bits = g.bits)
+    (hdb : a.isDb = true ∨ b.isDb = true)
+    (ca : ItemCastable (measureCast m) a) (cb : ItemCastable (measureCast m) b)
+    (sf : StoredAs ka f) (sg : StoredAs kb g)
+    (hz : m = .tanimoto ∨ m = .dice → NoZero f ∧ NoZero g)
+    (hn : m = .soergel → NonnegFp f ∧ NonnegFp g) (h2 : m = .pearson → 2 ≤ f.bits) :
+    metricDispatch m a (some b) = .ok (.inr [[ matrixEntry m f g ]]) ∧
+    metricDispatch m (.fp f) (some (.fp g)) = .ok (.inl (simFp m f g)) := by
+  refine ⟨?_, dispatch_fp_fp m f g hb⟩
+  have zz : measureCast m ≠ none → m = .tanimoto ∨ m = .dice := by
+    cases m <;> simp [measureCast]
+  rw [dispatch_presented m a b f g ka kb pa pb hb hdb ca cb sf sg
+    (fun h => (hz (zz h)).1) (fun h => (hz (zz h)).2), simRows_canon m f g hf hg hb hn h2]
+
+/-! ### zero denominators -/
+
+theorem interCount_nil_left (b : List Nat) : interCount [] b = 0 := rfl
+theorem interCount_nil_right (a : List Nat) : interCount a [] = 0 := by
+  simp [interCount]
+
+theorem cntRow_of_empty (f : Fp) (h : f.idx = []) : cntRow f = [] := by simp [cntRow, h]
+
+/-- two-fingerprint form, empty left operand: 0 under every measure.  Soergel needs the other operand
+non-negative (see `soergel_empty_negative`). -/
+theorem simFp_empty_left (m : Measure) (f g : Fp) (he : f.idx = []) (hf : f.WF) (hg : g.WF)
+    (hn : m = .soergel → NonnegFp g) : (simFp m f g).IsZero := by
+  cases m with
+  | tanimoto =>
+    show fpTanimoto f g = 0
+    unfold fpTanimoto Gen.fpTanimotoExpr Gen.divNan
+    rw [he, interCount_nil_left]; split <;> simp <;> grind
+  | dice =>
+    show fpDice f g = 0
+    unfold fpDice Gen.fpDiceExpr Gen.divNan
+    rw [he, interCount_nil_left]; split <;> simp <;> grind
+  | soergel =>
+    show fpSoergel f g = 0
+    rw [fp_eq_def_soergel f g hf hg, cntRow_of_empty f he]
+    exact C06L.soergelDef_nil_left _ (nonnegRow_cntRow g (hn rfl))
+  | cosine =>
+    show (fpCosine f g).1 = 0 ∧ (fpCosine f g).2 = 0
+    simp [fpCosine, fpDot, fpSq, he, sumQ]
+  | pearson =>
+    show (fpPearson f g).1 = 0 ∧ (fpPearson f g).2 = 0
+    simp [fpPearson, fpDot, fpSq, fpSumC, he, sumQ]; constructor <;> grind
+
+theorem fpDot_empty_right (f g : Fp) (he : g.idx = []) (hg : g.WF) : fpDot f g = 0 := by
+  unfold fpDot
+  have e : f.idx.map (fun i => f.count i * g.count i) = f.idx.map (fun _ => (0 : Rat)) :=
+    List.map_congr_left (fun i _ => by
+      rw [Fp.count_of_not_mem g hg i (by rw [he]; simp)]; grind)
+  rw [e, sumQ_map_zero]
+
+theorem simFp_empty_right (m : Measure) (f g : Fp) (he : g.idx = []) (hf : f.WF) (hg : g.WF)
+    (hn : m = .soergel → NonnegFp f) : (simFp m f g).IsZero := by
+  cases m with
+  | tanimoto =>
+    show fpTanimoto f g = 0
+    unfold fpTanimoto Gen.fpTanimotoExpr Gen.divNan
+    rw [he, interCount_nil_right]; split <;> simp <;> grind
+  | dice =>
+    show fpDice f g = 0
+    unfold fpDice Gen.fpDiceExpr Gen.divNan
+    rw [he, interCount_nil_right]; split <;> simp <;> grind
+  | soergel =>
+    show fpSoergel f g = 0
+    rw [fp_eq_def_soergel f g hf hg, cntRow_of_empty g he]
+    exact C06L.soergelDef_nil_right _ (nonnegRow_cntRow f (hn rfl))
+  | cosine =>
+    show (fpCosine f g).1 = 0 ∧ (fpCosine f g).2 = 0
+    have : fpSq g = 0 := by simp [fpSq, he, sumQ]
+    simp [fpCosine, fpDot_empty_right f g he hg, this]
+  | pearson =>
+    show (fpPearson f g).1 = 0 ∧ (fpPearson f g).2 = 0
+    have h1 : fpSq g = 0 := by simp [fpSq, he, sumQ]
+    have h2 : fpSumC g = 0 := by simp [fpSumC, he, sumQ]
+    simp [fpPearson, fpDot_empty_right f g he hg, h1, h2]; constructor <;> grind
+
+/-- every value of a result (the scalar, or every matrix entry) is 0 -/
+def AllZero : Sum Sim (List (List Sim)) → Prop
+  | .inl s => s.IsZero
+  | .inr M => ∀ row ∈ M, ∀ s ∈ row, s.IsZero
+
+/-- **zero denominators**: an empty (all-zero) fingerprint as the first operand scores 0 against a
+fingerprint or against every row of a database, under every measure (for cosine and Pearson: numerator
+and radicand are both 0, which the code maps to 0).  Only the two-fingerprint Soergel needs the other
+operand non-negative. -/
+theorem dispatch_zero_denominator (m : Measure) (f : Fp) (he : f.idx = []) (b : Item)
+    (hb : b.bits = some f.bits) (cb : ItemCastable (measureCast m) b)
+    (hfp : ∀ g, b = .fp g → f.WF ∧ g.WF ∧ (m = .soergel → NonnegFp g)) :
+    ∃ r, metricDispatch m (.fp f) (some b) = .ok r ∧ AllZero r := by
+  cases b with
+  | fp g =>
+    obtain ⟨hf, hg, hn⟩ := hfp g rfl
+    refine ⟨_, dispatch_fp_fp m f g (by simpa [Item.bits] using hb.symm), ?_⟩
+    exact simFp_empty_left m f g he hf hg hn
+  | db d =>
+    refine ⟨_, metricDispatch_matrix m (.fp f) (.db d) f.bits rfl hb (Or.inr rfl) trivial cb, ?_⟩
+    intro row hrow s hs
+    simp only [itemRows, fpRow_of_empty _ f he, List.map_cons, List.map_nil, List.mem_singleton] at hrow
+    subst hrow
+    obtain ⟨y, _, rfl⟩ := List.mem_map.1 hs
+    exact simRows_nil_left m f.bits y
+
+/-- the same with the empty fingerprint as the second operand -/
+theorem dispatch_zero_denominator_right (m : Measure) (f : Fp) (he : f.idx = []) (a : Item)
+    (ha : a.bits = some f.bits) (ca : ItemCastable (measureCast m) a)
+    (hfp : ∀ g, a = .fp g → f.WF ∧ g.WF ∧ (m = .soergel → NonnegFp g)) :
+    ∃ r, metricDispatch m a (some (.fp f)) = .ok r ∧ AllZero r := by
+  cases a with
+  | fp g =>
+    obtain ⟨hf, hg, hn⟩ := hfp g rfl
+    refine ⟨_, dispatch_fp_fp m g f (by simpa [Item.bits] using ha), ?_⟩
+    exact simFp_empty_right m g f he hg hf hn
+  | db d =>
+    refine ⟨_, metricDispatch_matrix m (.db d) (.fp f) f.bits ha rfl (Or.inl rfl) ca trivial, ?_⟩
+    intro row hrow s hs
+    obtain ⟨x, _, rfl⟩ := List.mem_map.1 hrow
+    simp only [itemRows, fpRow_of_empty _ f he, List.map_cons, List.map_nil, List.mem_singleton] at hs
+    subst hs
+    exact simRows_nil_right m f.bits x
+
+/-- in a database-against-database matrix, the row (column) of an empty database row is 0 -/
+theorem dispatch_db_db_zero_row (m : Measure) (n : Nat) (s : Row) :
+    (simRows m n (castRowO (measureCast m) []) s).IsZero ∧ (simRows m n s (castRowO (measureCast m) [])).IsZero := by
+  have : castRowO (measureCast m) [] = [] := by cases m <;> rfl
+  rw [this]
+  exact ⟨simRows_nil_left m n s, simRows_nil_right m n s⟩
+
+attribute [local instance] decEqExcept in
+/-- The non-negativity in the two-fingerprint Soergel case cannot be dropped: against an empty
+fingerprint, a float fingerprint with counts `1, −1` scores `−1` as two fingerprints, and `0` in the
+database form. -/
+theorem soergel_empty_negative :
+    metricDispatch .soergel (.fp ⟨.float, 8, 0, [], []⟩)
+      (some (.fp ⟨.float, 8, 0, [0, 1], [(0, 1), (1, -1)]⟩)) = .ok (.inl (.q (-1))) ∧
+    metricDispatch .soergel (.fp ⟨.float, 8, 0, [], []⟩)
+      (some (.db ((Db.new .float 0 none).add [⟨⟨.float, 8, 0, [0, 1], [(0, 1), (1, -1)]⟩, none, []⟩]).1))
+        = .ok (.inr [[.q 0]]) := by
+  decide +kernel
+
+/-! ### the hypotheses of `routes_agree` cannot be dropped: witnesses -/
+
+/-- witnesses -/
+def witZeroCount : Fp := ⟨.count, 8, 0, [1, 2], [(1, 0), (2, 3)]⟩
+def witBit2 : Fp := ⟨.bit, 8, 0, [2], []⟩
+def witPos : Fp := ⟨.float, 8, 0, [0], [(0, 1)]⟩
+def witNeg : Fp := ⟨.float, 8, 0, [1], [(1, -1)]⟩
+
+theorem wit_wf : witZeroCount.WF ∧ witBit2.WF ∧ witPos.WF ∧ witNeg.WF := by
+  unfold Fp.WF; decide
+
+attribute [local instance] decEqExcept in
+/-- **An explicit zero count.**  A count fingerprint that lists position 1 with count 0 (well-formed:
+`CountFingerprint(counts={1: 0, 2: 3})`) counts position 1 as set in the two-fingerprint Tanimoto and
+Dice (they read the index array), but not in any database form (the bit cast of the stored 0 is 0):
+`1/2` against `1`, `2/3` against `1`. -/
+theorem explicit_zero_count_routes_differ :
+    metricDispatch .tanimoto (.fp witZeroCount) (some (.fp witBit2)) = .ok (.inl (.q (1 / 2))) ∧
+    metricDispatch .tanimoto (.fp witZeroCount)
+      (some (.db ((Db.new .bit 0 none).add [⟨witBit2, none, []⟩]).1)) = .ok (.inr [[.q 1]]) ∧
+    metricDispatch .dice (.fp witZeroCount) (some (.fp witBit2)) = .ok (.inl (.q (2 / 3))) ∧
+    metricDispatch .dice (.fp witZeroCount)
+      (some (.db ((Db.new .bit 0 none).add [⟨witBit2, none, []⟩]).1)) = .ok (.inr [[.q 1]]) := by
+  refine ⟨?_, ?_, ?_, ?_⟩ <;> decide +kernel
+
+attribute [local instance] decEqExcept in
+/-- **Negative counts under Soergel.**  Two float fingerprints `{0: 1}` and `{1: −1}`: the
+two-fingerprint form follows the definition (`1 − 2/1 = −1`), the sparse merge kernel of the database
+form adds unmatched values as they stand (`sum_max = 0`, result `0`). -/
+theorem negative_count_soergel_routes_differ :
+    metricDispatch .soergel (.fp witPos) (some (.fp witNeg)) = .ok (.inl (.q (-1))) ∧
+    metricDispatch .soergel (.fp witPos)
+      (some (.db ((Db.new .float 0 none).add [⟨witNeg, none, []⟩]).1)) = .ok (.inr [[.q 0]]) := by
+  refine ⟨?_, ?_⟩ <;> decide +kernel
+
+attribute [local instance] decEqExcept in
+/-- **Lossy storage.**  A float fingerprint `{0: 1/2}` held in a *count* database is stored as an
+explicit 0 (`int(0.5)`), so Tanimoto against the bit fingerprint `{0}` is 0 instead of 1; held in a
+float database the bit cast sees a non-zero value and the routes agree. -/
+theorem lossy_storage_routes_differ :
+    let f : Fp := ⟨.bit, 8, 0, [0], []⟩
+    let g : Fp := ⟨.float, 8, 0, [0], [(0, 1 / 2)]⟩
+    metricDispatch .tanimoto (.fp f) (some (.fp g)) = .ok (.inl (.q 1)) ∧
+    metricDispatch .tanimoto (.fp f) (some (.db ((Db.new .count 0 none).add [⟨g, none, []⟩]).1))
+      = .ok (.inr [[.q 0]]) ∧
+    metricDispatch .tanimoto (.fp f) (some (.db ((Db.new .float 0 none).add [⟨g, none, []⟩]).1))
+      = .ok (.inr [[.q 1]]) := by
+  refine ⟨?_, ?_, ?_⟩ <;> decide +kernel
+
+/-! ### every route equals the mathematical definition -/
+
+/-- the mathematical definition of each measure on two vectors given as rows -/
+def defSim (m : Measure) (n : Nat) (x y : Row) : Sim :=
+  match m with
+  | .tanimoto => .q (tanimotoDef x y)
+  | .dice => .q (diceDef x y)
+  | .soergel => .q (soergelDef x y)
+  | .cosine => .root (cosineDef x y).1 (cosineDef x y).2
+  | .pearson => .root (pearsonDef n x y).1 (pearsonDef n x y).2
+
+/-- the representation of the value in the matrix forms: unchanged, except that the sparse Pearson
+route normalises with `n − 1`, which multiplies numerator and radicand by `c` and `c²`,
+`c = n/(n−1) > 0` — the same number `num / sqrt rad` (see `Sim.val_scaleFor` in `Props/C06Real.lean`) -/
+def scaleFor (m : Measure) (n : Nat) (s : Sim) : Sim :=
+  match m, s with
+  | .pearson, .root a r => .root (((n : Rat) / ((n : Rat) - 1)) * a) (((n : Rat) / ((n : Rat) - 1)) ^ 2 * r)
+  | _, s => s
+
+theorem matrixEntry_eq_scale (m : Measure) (f g : Fp) :
+    matrixEntry m f g = scaleFor m f.bits (simFp m f g) := by
+  cases m <;> rfl
+
+/-- the row measure after the cast the measure asks for = the definition on the rows as stored:
+Tanimoto and Dice for arbitrary rows (the definition reads supports, and so does the bit cast);
+Soergel on sorted duplicate-free non-negative rows; cosine always; Pearson for `n ≥ 2` -/
+theorem simRows_cast_eq_def (m : Measure) (n : Nat) (x y : Row)
+    (hs : m = .soergel → SortedRow x ∧ SortedRow y ∧ NonnegRow x ∧ NonnegRow y)
+    (h2 : m = .pearson → 2 ≤ n) :
+    simRows m n (castRowO (measureCast m) x) (castRowO (measureCast m) y) = scaleFor m n (defSim m n x y) := by
+  cases m with
+  | tanimoto => show Sim.q (arrTanimoto (castRow .bit x) (castRow .bit y)) = _; rw [arrTanimoto_castBit]; rfl
+  | dice => show Sim.q (arrDice (castRow .bit x) (castRow .bit y)) = _; rw [arrDice_castBit]; rfl
+  | soergel =>
+    obtain ⟨a, b, c, d⟩ := hs rfl
+    show Sim.q (arrSoergelSparse x y) = _
+    rw [arrSoergelSparse_eq_def_all x y a b c d]; rfl
+  | cosine => rfl
+  | pearson =>
+    show Sim.root (arrPearson n x y).1 (arrPearson n x y).2 = _
+    rw [arrPearson_scaled n (h2 rfl)]; rfl
+
+theorem castRow_bit_of_zeroOne (r : Row) (h : ZeroOne r) : castRow .bit r = r := by
+  unfold castRow
+  refine (List.map_congr_left (g := id) ?_).trans (List.map_id r)
+  intro p hp
+  rcases h p hp with h0 | h1
+  · exact Prod.ext rfl (by simp [castVal, h0])
+  · exact Prod.ext rfl (by simp [castVal, h1])
+
+/-- the vectors an operand stands for -/
+def storedRows : Item → List Row
+  | .fp f => [cntRow f]
+  | .db d => d.array.getD []
+
+/-- side conditions under which the rows handed to the row measure are the cast of `storedRows`:
+a lone fingerprint under Soergel/cosine/Pearson is stored in its own kind without loss; a database can be
+cast; a bit database holds 0/1 values (as every bit database built by the library does) -/
+def ItemOK (m : Measure) : Item → Prop
+  | .fp f => measureCast m = none → StoredAs f.kind f
+  | .db d => Castable (measureCast m) d ∧
+      (measureCast m ≠ none → d.fpType = .bit → ∀ r ∈ d.array.getD [], ZeroOne r)
+
+theorem itemRows_eq_cast (m : Measure) (it : Item) (h : ItemOK m it) :
+    itemRows (measureCast m) it = (storedRows it).map (castRowO (measureCast m)) := by
+  cases it with
+  | fp f =>
+    cases ht : measureCast m with
+    | none =>
+      simp only [itemRows, storedRows, Option.getD_none, castRowO, List.map_cons, List.map_nil]
+      rw [fpRow_eq_cntRow _ f (h ht)]
+    | some k =>
+      have : k = .bit := by cases m <;> simp [measureCast] at ht <;> exact ht.symm
+      subst this
+      simp only [itemRows, storedRows, Option.getD_some, castRowO, List.map_cons, List.map_nil]
+      rw [fpRow_bit_eq_castRow]
+  | db d =>
+    cases ht : measureCast m with
+    | none =>
+      simp only [itemRows, storedRows, dbRows]
+      exact (List.map_id _).symm
+    | some k =>
+      have : k = .bit := by cases m <;> simp [measureCast] at ht <;> exact ht.symm
+      subst this
+      simp only [itemRows, storedRows, dbRows]
+      by_cases hk : Kind.bit = d.fpType
+      · rw [if_pos hk]
+        have h01 := h.2 (by simp [ht]) hk.symm
+        symm
+        refine (List.map_congr_left (g := id) ?_).trans (List.map_id _)
+        intro r hr
+        exact castRow_bit_of_zeroOne r (h01 r hr)
+      · rw [if_neg hk]; rfl
+
+theorem itemCastable_of_ok (m : Measure) (it : Item) (h : ItemOK m it) : ItemCastable (measureCast m) it := by
+  cases it with
+  | fp f => trivial
+  | db d => exact h.1
+
+/-- **every matrix form returns the definition on the vectors the operands stand for**
+(for a lone fingerprint its count vector, for a database its rows as stored) -/
+theorem dispatch_eq_def (m : Measure) (a b : Item) (n : Nat)
+    (ha : a.bits = some n) (hb : b.bits = some n) (hdb : a.isDb = true ∨ b.isDb = true)
+    (oka : ItemOK m a) (okb : ItemOK m b)
+    (hs : m = .soergel → ∀ r, r ∈ storedRows a ∨ r ∈ storedRows b → SortedRow r ∧ NonnegRow r)
+    (h2 : m = .pearson → 2 ≤ n) :
+    metricDispatch m a (some b) =
+      .ok (.inr ((storedRows a).map (fun r => (storedRows b).map (fun s => scaleFor m n (defSim m n r s))))) := by
+  rw [metricDispatch_matrix m a b n ha hb hdb (itemCastable_of_ok m a oka) (itemCastable_of_ok m b okb),
+    itemRows_eq_cast m a oka, itemRows_eq_cast m b okb]
+  simp only [List.map_map]
+  congr 2
+  apply List.map_congr_left
+  intro r hr
+  simp only [Function.comp_apply]
+  apply List.map_congr_left
+  intro s hs'
+  simp only [Function.comp_apply]
+  exact simRows_cast_eq_def m n r s
+    (fun hm => ⟨(hs hm r (Or.inl hr)).1, (hs hm s (Or.inr hs')).1, (hs hm r (Or.inl hr)).2, (hs hm s (Or.inr hs')).2⟩) h2
+
+theorem castRow_bit_cntRow_eq_ones (f : Fp) (h : NoZero f) : castRow .bit (cntRow f) = onesRow f := by
+  rw [← fpRow_bit_eq_castRow, fpRow_bit_eq_ones f h]
+
+/-- **the two-fingerprint form returns the definition on the two count vectors** (Tanimoto/Dice: when
+no count is an explicit zero — they read the index arrays; see `explicit_zero_count_routes_differ`) -/
+theorem simFp_eq_def (m : Measure) (f g : Fp) (hf : f.WF) (hg : g.WF) (hb : f.bits = g.bits)
+    (hz : m = .tanimoto ∨ m = .dice → NoZero f ∧ NoZero g) :
+    simFp m f g = defSim m f.bits (cntRow f) (cntRow g) := by
+  cases m with
+  | tanimoto =>
+    obtain ⟨zf, zg⟩ := hz (Or.inl rfl)
+    show Sim.q (fpTanimoto f g) = Sim.q (tanimotoDef (cntRow f) (cntRow g))
+    rw [fp_eq_def_tanimoto f g hf hg, ← tanimotoDef_castBit (cntRow f), castRow_bit_cntRow_eq_ones f zf,
+      castRow_bit_cntRow_eq_ones g zg]
+    rfl
+  | dice =>
+    obtain ⟨zf, zg⟩ := hz (Or.inr rfl)
+    show Sim.q (fpDice f g) = Sim.q (diceDef (cntRow f) (cntRow g))
+    rw [fp_eq_def_dice f g hf hg, ← diceDef_castBit (cntRow f), castRow_bit_cntRow_eq_ones f zf,
+      castRow_bit_cntRow_eq_ones g zg]
+    rfl
+  | soergel => show Sim.q (fpSoergel f g) = _; rw [fp_eq_def_soergel f g hf hg]; rfl
+  | cosine => show Sim.root (fpCosine f g).1 (fpCosine f g).2 = _; rw [fp_eq_def_cosine f g hf hg]; rfl
+  | pearson =>
+    show Sim.root (fpPearson f g).1 (fpPearson f g).2 = _
+    rw [fp_eq_def_pearson f g hf hg hb]; rfl
+
+theorem zeroOne_fpRow_bit (f : Fp) : ZeroOne (fpRow .bit f) := by
+  rw [fpRow_bit_eq_castRow]; exact zeroOne_castRow_bit _
+
+/-- **fingerprint against a database built from fingerprints = the definition** on the count vector of
+the fingerprint and the vectors of the database's fingerprints in the database's dtype
+(`fpRow k g = cntRow g` when `StoredAs k g`, `fpRow_eq_cntRow`).  No condition about explicit zeros:
+the database forms follow the definition on supports. -/
+theorem dispatch_fp_builtdb_eq_def (m : Measure) (f : Fp) (k : Kind) (lvl : Int) (nm : Option String)
+    (fps : List FpIn) (hok : ((Db.new k lvl nm).add fps).2 = none)
+    (hb : ∀ x ∈ fps, f.bits = x.fp.bits) (hf : f.WF) (hfs : ∀ x ∈ fps, x.fp.WF)
+    (sf : measureCast m = none → StoredAs f.kind f)
+    (hn : m = .soergel → NonnegFp f ∧ ∀ x ∈ fps, NonnegRow (fpRow k x.fp))
+    (h2 : m = .pearson → 2 ≤ f.bits) :
+    metricDispatch m (.fp f) (some (.db ((Db.new k lvl nm).add fps).1)) =
+      .ok (.inr [ fps.map (fun x => scaleFor m f.bits (defSim m f.bits (cntRow f) (fpRow k x.fp))) ]) := by
+  obtain ⟨h1, hk, h3, h4, _⟩ := built_db k lvl nm fps hok
+  have hne : fps ≠ [] := ((C05.add_ok_iff _ fps).1 hok).1
+  obtain ⟨x0, hx0⟩ := List.exists_mem_of_ne_nil fps hne
+  have hbits : (Item.db ((Db.new k lvl nm).add fps).1).bits = some f.bits := by
+    simp only [Item.bits, h1, Option.map_some]
+    rw [← h4 x0 hx0, hb x0 hx0]
+  have hrows : storedRows (.db ((Db.new k lvl nm).add fps).1) = fps.map (fun x => fpRow k x.fp) := by
+    simp [storedRows, h1]
+  have okb : ItemOK m (.db ((Db.new k lvl nm).add fps).1) := by
+    refine ⟨castable_of_inv _ _ h3, ?_⟩
+    intro _ hbit r hr
+    rw [h1, Option.getD_some] at hr
+    obtain ⟨x, _, rfl⟩ := List.mem_map.1 hr
+    rw [hk] at hbit; subst hbit
+    exact zeroOne_fpRow_bit _
+  rw [dispatch_eq_def m (.fp f) _ f.bits rfl hbits (Or.inr rfl) sf okb ?_ h2, hrows]
+  · simp only [storedRows, List.map_cons, List.map_nil, List.map_map]
+    rfl
+  · intro hm r hr
+    obtain ⟨nf, nfs⟩ := hn hm
+    rcases hr with hr | hr
+    · simp only [storedRows, List.mem_singleton] at hr
+      subst hr
+      exact ⟨sortedRow_cntRow f hf, nonnegRow_cntRow f nf⟩
+    · rw [hrows] at hr
+      obtain ⟨x, hx, rfl⟩ := List.mem_map.1 hr
+      exact ⟨sortedRow_fpRow k x.fp (hfs x hx), nfs x hx⟩
+
+/-! ### whole databases: the matrix is the table of the two-fingerprint values -/
+
+theorem fpSide_canon (m : Measure) (f : Fp) (sf : measureCast m = none → StoredAs f.kind f)
+    (zf : measureCast m ≠ none → NoZero f) :
+    fpRow ((measureCast m).getD f.kind) f = canonRow m f := by
+  unfold canonRow
+  cases ht : measureCast m with
+  | none => simp only [Option.getD_none]; exact fpRow_eq_cntRow _ f (sf ht)
+  | some k =>
+    have : k = .bit := by cases m <;> simp [measureCast] at ht <;> exact ht.symm
+    subst this
+    simp only [Option.getD_some]
+    exact fpRow_bit_eq_ones f (zf (by simp [ht]))
+
+theorem dbSide_canon (m : Measure) (k : Kind) (g : Fp) (sg : StoredAs k g)
+    (zg : measureCast m ≠ none → NoZero g) :
+    castRowO (measureCast m) (fpRow k g) = canonRow m g := by
+  unfold canonRow castRowO
+  cases ht : measureCast m with
+  | none => exact fpRow_eq_cntRow _ g sg
+  | some k' =>
+    have : k' = .bit := by cases m <;> simp [measureCast] at ht <;> exact ht.symm
+    subst this
+    exact castRow_bit_fpRow_eq_ones k g sg (zg (by simp [ht]))
+
+/-- **fingerprint against a database of fingerprints = the list of the two-fingerprint values**:
+entry `j` is `matrixEntry m f gⱼ`, the value of `metricDispatch m (.fp f) (some (.fp gⱼ))` -/
+theorem dispatch_fp_builtdb_routes (m : Measure) (f : Fp) (k : Kind) (lvl : Int) (nm : Option String)
+    (fps : List FpIn) (hok : ((Db.new k lvl nm).add fps).2 = none)
+    (hb : ∀ x ∈ fps, f.bits = x.fp.bits) (hf : f.WF) (hfs : ∀ x ∈ fps, x.fp.WF)
+    (sf : measureCast m = none → StoredAs f.kind f) (sfs : ∀ x ∈ fps, StoredAs k x.fp)
+    (hz : m = .tanimoto ∨ m = .dice → NoZero f ∧ ∀ x ∈ fps, NoZero x.fp)
+    (hn : m = .soergel → NonnegFp f ∧ ∀ x ∈ fps, NonnegFp x.fp)
+    (h2 : m = .pearson → 2 ≤ f.bits) :
+    metricDispatch m (.fp f) (some (.db ((Db.new k lvl nm).add fps).1)) =
+      .ok (.inr [ fps.map (fun x => matrixEntry m f x.fp) ]) := by
+  have zz : measureCast m ≠ none → m = .tanimoto ∨ m = .dice := by
+    cases m <;> simp [measureCast]
+  rw [dispatch_fp_builtdb m f k lvl nm fps hok hb, fpSide_canon m f sf (fun h => (hz (zz h)).1)]
+  congr 3
+  apply List.map_congr_left
+  intro x hx
+  rw [dbSide_canon m k x.fp (sfs x hx) (fun h => (hz (zz h)).2 x hx)]
+  exact simRows_canon m f x.fp hf (hfs x hx) (hb x hx)
+    (fun h => ⟨(hn h).1, (hn h).2 x hx⟩) h2
+
+/-- **database against database = the table of the two-fingerprint values** -/
+theorem dispatch_builtdb_builtdb_routes (m : Measure) (k k' : Kind) (lvl lvl' : Int) (nm nm' : Option String)
+    (fps gps : List FpIn) (hok : ((Db.new k lvl nm).add fps).2 = none)
+    (hok' : ((Db.new k' lvl' nm').add gps).2 = none)
+    (hb : ∀ x ∈ fps, ∀ y ∈ gps, x.fp.bits = y.fp.bits)
+    (hfs : ∀ x ∈ fps, x.fp.WF) (hgs : ∀ y ∈ gps, y.fp.WF)
+    (sfs : ∀ x ∈ fps, StoredAs k x.fp) (sgs : ∀ y ∈ gps, StoredAs k' y.fp)
+    (hz : m = .tanimoto ∨ m = .dice → (∀ x ∈ fps, NoZero x.fp) ∧ ∀ y ∈ gps, NoZero y.fp)
+    (hn : m = .soergel → (∀ x ∈ fps, NonnegFp x.fp) ∧ ∀ y ∈ gps, NonnegFp y.fp)
+    (h2 : m = .pearson → ∀ x ∈ fps, 2 ≤ x.fp.bits) :
+    metricDispatch m (.db ((Db.new k lvl nm).add fps).1) (some (.db ((Db.new k' lvl' nm').add gps).1)) =
+      .ok (.inr (fps.map (fun x => gps.map (fun y => matrixEntry m x.fp y.fp)))) := by
+  have zz : measureCast m ≠ none → m = .tanimoto ∨ m = .dice := by
+    cases m <;> simp [measureCast]
+  obtain ⟨h1, hk, h3, h4, _⟩ := built_db k lvl nm fps hok
+  obtain ⟨h1', hk', h3', h4', _⟩ := built_db k' lvl' nm' gps hok'
+  obtain ⟨x0, hx0⟩ := List.exists_mem_of_ne_nil fps ((C05.add_ok_iff _ fps).1 hok).1
+  obtain ⟨y0, hy0⟩ := List.exists_mem_of_ne_nil gps ((C05.add_ok_iff _ gps).1 hok').1
+  have hbits : ((Db.new k lvl nm).add fps).1.bits = ((Db.new k' lvl' nm').add gps).1.bits := by
+    rw [← h4 x0 hx0, ← h4' y0 hy0]; exact hb x0 hx0 y0 hy0
+  rw [dispatch_db_db m _ _ _ _ h1 h1' hbits (castable_of_inv _ _ h3) (castable_of_inv _ _ h3'),
+    dbRows_built (measureCast m) ((Db.new k lvl nm).add fps).1 fps (by rw [h1, hk]),
+    dbRows_built (measureCast m) ((Db.new k' lvl' nm').add gps).1 gps (by rw [h1', hk']), hk, hk']
+  simp only [List.map_map]
+  congr 2
+  apply List.map_congr_left
+  intro x hx
+  simp only [Function.comp_apply]
+  apply List.map_congr_left
+  intro y hy
+  simp only [Function.comp_apply]
+  rw [dbSide_canon m k x.fp (sfs x hx) (fun h => (hz (zz h)).1 x hx),
+    dbSide_canon m k' y.fp (sgs y hy) (fun h => (hz (zz h)).2 y hy), ← h4 x hx]
+  exact simRows_canon m x.fp y.fp (hfs x hx) (hgs y hy) (hb x hx y hy)
+    (fun h => ⟨(hn h).1 x hx, (hn h).2 y hy⟩) (fun h => h2 h x hx)
+
+/-- a single database holding one fingerprint, compared with itself (`B=None`) -/
+theorem routes_agree_single (m : Measure) (d : Db) (f : Fp) (k : Kind) (pd : Presents (.db d) f k)
+    (hf : f.WF) (cd : Castable (measureCast m) d) (sf : StoredAs k f)
+    (hz : m = .tanimoto ∨ m = .dice → NoZero f) (hn : m = .soergel → NonnegFp f)
+    (h2 : m = .pearson → 2 ≤ f.bits) :
+    metricDispatch m (.db d) none = .ok (.inr [[ matrixEntry m f f ]]) := by
+  have ha : ∃ a, d.array = some a := by cases pd with | db _ _ ha _ => exact ⟨_, ha⟩
+  obtain ⟨a, ha⟩ := ha
+  rw [dispatch_single m d a ha cd]
+  exact (routes_agree m (.db d) (.db d) f f k k pd pd hf hf rfl (Or.inl rfl) cd cd sf sf
+    (fun h => ⟨hz h, hz h⟩) (fun h => ⟨hn h, hn h⟩) h2).1
+
+/-! ### non-vacuity: the theorems applied to concrete operands -/
+
+/-- count fingerprint `{1: 3, 2: 1}` -/
+def exCount : Fp := ⟨.count, 8, 0, [1, 2], [(1, 3), (2, 1)]⟩
+/-- bit fingerprint `{2, 5}` -/
+def exBit : Fp := ⟨.bit, 8, 0, [2, 5], []⟩
+/-- float fingerprint `{2: 1/2, 7: 4}` -/
+def exFloat : Fp := ⟨.float, 8, 0, [2, 7], [(2, 1 / 2), (7, 4)]⟩
+/-- the empty count fingerprint -/
+def exEmpty : Fp := ⟨.count, 8, 0, [], []⟩
+
+theorem ex_wf : exCount.WF ∧ exBit.WF ∧ exFloat.WF ∧ exEmpty.WF := by unfold Fp.WF; decide
+
+theorem ex_storedAs : StoredAs .count exCount ∧ StoredAs .bit exBit ∧ StoredAs .float exFloat := by
+  refine ⟨storedAs_own_count exCount rfl ?_, storedAs_own_bit exBit rfl, storedAs_float exFloat⟩
+  intro i hi
+  simp only [exCount, List.mem_cons, List.not_mem_nil, or_false] at hi
+  rcases hi with rfl | rfl
+  · exact ⟨3, by decide +kernel⟩
+  · exact ⟨1, by decide +kernel⟩
+
+theorem ex_noZero : NoZero exCount ∧ NoZero exBit ∧ NoZero exFloat := by
+  refine ⟨?_, noZero_bit exBit rfl, ?_⟩ <;>
+  · intro i hi
+    simp only [exCount, exFloat, List.mem_cons, List.not_mem_nil, or_false] at hi
+    rcases hi with rfl | rfl <;> decide +kernel
+
+theorem ex_nonneg : NonnegFp exCount ∧ NonnegFp exBit ∧ NonnegFp exFloat := by
+  refine ⟨?_, nonneg_bit exBit rfl, ?_⟩ <;>
+  · intro i hi
+    simp only [exCount, exFloat, List.mem_cons, List.not_mem_nil, or_false] at hi
+    rcases hi with rfl | rfl <;> decide +kernel
+
+/-- a count database of two fingerprints (the second one a bit fingerprint, stored as counts) -/
+def exDb : Db := ((Db.new .count 0 (some "db")).add [⟨exCount, some "a", []⟩, ⟨exBit, some "b", []⟩]).1
+
+theorem exDb_ok : ((Db.new .count 0 (some "db")).add [⟨exCount, some "a", []⟩, ⟨exBit, some "b", []⟩]).2 = none := by
+  decide +kernel
+
+theorem exDb_facts : exDb.array = some [fpRow .count exCount, fpRow .count exBit] ∧ exDb.Inv ∧ exDb.bits = 8 := by
+  obtain ⟨h1, _, h3, h4, _⟩ := built_db .count 0 (some "db") _ exDb_ok
+  exact ⟨h1, h3, (h4 ⟨exCount, some "a", []⟩ (by simp)).symm⟩
+
+/-- `dispatch_fp_db`, `dispatch_db_fp`, `dispatch_db_db`, `dispatch_single` apply (all five measures) -/
+example (m : Measure) : metricDispatch m (.fp exFloat) (some (.db exDb)) =
+    .ok (.inr [ (dbRows (measureCast m) exDb).map
+      (fun s => simRows m 8 (fpRow ((measureCast m).getD .float) exFloat) s) ]) :=
+  dispatch_fp_db m exFloat exDb _ exDb_facts.1 exDb_facts.2.2.symm (castable_of_inv _ _ exDb_facts.2.1)
+
+example (m : Measure) : metricDispatch m (.db exDb) (some (.fp exFloat)) =
+    .ok (.inr ((dbRows (measureCast m) exDb).map
+      (fun r => [ simRows m exDb.bits r (fpRow ((measureCast m).getD .float) exFloat) ]))) :=
+  dispatch_db_fp m exFloat exDb _ exDb_facts.1 exDb_facts.2.2 (castable_of_inv _ _ exDb_facts.2.1)
+
+example (m : Measure) : metricDispatch m (.db exDb) none = metricDispatch m (.db exDb) (some (.db exDb)) :=
+  dispatch_single m exDb _ exDb_facts.1 (castable_of_inv _ _ exDb_facts.2.1)
+
+/-- `dispatch_fp_builtdb`: the entries spelled out against a built database -/
+example (m : Measure) : metricDispatch m (.fp exFloat) (some (.db exDb)) =
+    .ok (.inr [ [ simRows m 8 (fpRow ((measureCast m).getD .float) exFloat) (castRowO (measureCast m) (fpRow .count exCount)),
+                  simRows m 8 (fpRow ((measureCast m).getD .float) exFloat) (castRowO (measureCast m) (fpRow .count exBit)) ] ]) :=
+  dispatch_fp_builtdb m exFloat .count 0 (some "db") _ exDb_ok (by intro x hx; simp at hx; rcases hx with rfl | rfl <;> rfl)
+
+/-- `routes_agree` on a count fingerprint against a float fingerprint stored alone in a float database:
+all five measures (Tanimoto/Dice: the bit cast of the database agrees with the index sets) -/
+example (m : Measure) :
+    metricDispatch m (.fp exCount) (some (.db ((Db.new .float 0 none).add [⟨exFloat, none, []⟩]).1))
+      = .ok (.inr [[ matrixEntry m exCount exFloat ]]) ∧
+    metricDispatch m (.fp exCount) (some (.fp exFloat)) = .ok (.inl (simFp m exCount exFloat)) := by
+  obtain ⟨_, hp, hi⟩ := presents_single .float none ⟨exFloat, none, []⟩
+  exact routes_agree m _ _ exCount exFloat .count .float (Presents.fp exCount) hp ex_wf.1 ex_wf.2.2.1 rfl
+    (Or.inr rfl) trivial (castable_of_inv _ _ hi) ex_storedAs.1 ex_storedAs.2.2
+    (fun _ => ⟨ex_noZero.1, ex_noZero.2.2⟩) (fun _ => ⟨ex_nonneg.1, ex_nonneg.2.2⟩) (fun _ => by decide)
+
+/-- the same with both operands as databases of different kinds, and the single-database form -/
+example (m : Measure) :
+    metricDispatch m (.db ((Db.new .count 0 none).add [⟨exCount, none, []⟩]).1)
+      (some (.db ((Db.new .bit 0 none).add [⟨exBit, none, []⟩]).1))
+      = .ok (.inr [[ matrixEntry m exCount exBit ]]) := by
+  obtain ⟨_, hp, hi⟩ := presents_single .count none ⟨exCount, none, []⟩
+  obtain ⟨_, hp', hi'⟩ := presents_single .bit none ⟨exBit, none, []⟩
+  exact (routes_agree m _ _ exCount exBit .count .bit hp hp' ex_wf.1 ex_wf.2.1 rfl
+    (Or.inl rfl) (castable_of_inv _ _ hi) (castable_of_inv _ _ hi') ex_storedAs.1 ex_storedAs.2.1
+    (fun _ => ⟨ex_noZero.1, ex_noZero.2.1⟩) (fun _ => ⟨ex_nonneg.1, ex_nonneg.2.1⟩) (fun _ => by decide)).1
+
+example (m : Measure) :
+    metricDispatch m (.db ((Db.new .count 0 none).add [⟨exCount, none, []⟩]).1) none
+      = .ok (.inr [[ matrixEntry m exCount exCount ]]) := by
+  obtain ⟨_, hp, hi⟩ := presents_single .count none ⟨exCount, none, []⟩
+  exact routes_agree_single m _ exCount .count hp ex_wf.1 (castable_of_inv _ _ hi) ex_storedAs.1
+    (fun _ => ex_noZero.1) (fun _ => ex_nonneg.1) (fun _ => by decide)
+
+attribute [local instance] decEqExcept in
+/-- the concrete values: Tanimoto of `{1,2}` and `{2,7}` is `1/3` by both routes; the Pearson pairs differ
+by the factor `8/7` and its square -/
+example :
+    metricDispatch .tanimoto (.fp exCount) (some (.fp exFloat)) = .ok (.inl (.q (1 / 3))) ∧
+    metricDispatch .tanimoto (.fp exCount) (some (.db ((Db.new .float 0 none).add [⟨exFloat, none, []⟩]).1))
+      = .ok (.inr [[.q (1 / 3)]]) ∧
+    metricDispatch .pearson (.fp exCount) (some (.fp exFloat)) = .ok (.inl (.root (-7 / 32) (439 / 256))) ∧
+    metricDispatch .pearson (.fp exCount) (some (.db ((Db.new .float 0 none).add [⟨exFloat, none, []⟩]).1))
+      = .ok (.inr [[.root (8 / 7 * (-7 / 32)) ((8 / 7) ^ 2 * (439 / 256))]]) := by
+  refine ⟨?_, ?_, ?_, ?_⟩ <;> decide +kernel
+
+theorem exBit_storedAs_count : StoredAs .count exBit := by
+  intro i hi
+  have : exBit.count i = ((1 : Int) : Rat) := by
+    show (if i ∈ exBit.idx then (1 : Rat) else 0) = _
+    rw [if_pos hi]; rfl
+  rw [this]; exact truncQ_intCast 1
+
+/-- `dispatch_fp_builtdb_eq_def` applies (all five measures): the entries are the definitions on the
+count vectors -/
+example (m : Measure) : metricDispatch m (.fp exFloat) (some (.db exDb)) =
+    .ok (.inr [ [ scaleFor m 8 (defSim m 8 (cntRow exFloat) (cntRow exCount)),
+                  scaleFor m 8 (defSim m 8 (cntRow exFloat) (cntRow exBit)) ] ]) := by
+  have h := dispatch_fp_builtdb_eq_def m exFloat .count 0 (some "db") _ exDb_ok
+    (by intro x hx; simp at hx; rcases hx with rfl | rfl <;> rfl) ex_wf.2.2.1
+    (by intro x hx; simp at hx; rcases hx with rfl | rfl; exact ex_wf.1; exact ex_wf.2.1)
+    (fun _ => ex_storedAs.2.2)
+    (fun _ => ⟨ex_nonneg.2.2, by
+      intro x hx; simp at hx
+      rcases hx with rfl | rfl
+      · rw [fpRow_eq_cntRow _ _ ex_storedAs.1]; exact nonnegRow_cntRow _ ex_nonneg.1
+      · rw [fpRow_eq_cntRow _ _ exBit_storedAs_count]; exact nonnegRow_cntRow _ ex_nonneg.2.1⟩)
+    (fun _ => by decide)
+  simp only [List.map_cons, List.map_nil] at h
+  rw [fpRow_eq_cntRow .count exCount ex_storedAs.1, fpRow_eq_cntRow .count exBit exBit_storedAs_count] at h
+  exact h
+
+/-- `dispatch_fp_builtdb_routes` applies (all five measures): a float fingerprint against a count database
+holding a count and a bit fingerprint returns the two two-fingerprint values -/
+example (m : Measure) : metricDispatch m (.fp exFloat) (some (.db exDb)) =
+    .ok (.inr [ [ matrixEntry m exFloat exCount, matrixEntry m exFloat exBit ] ]) :=
+  dispatch_fp_builtdb_routes m exFloat .count 0 (some "db") _ exDb_ok
+    (by intro x hx; simp at hx; rcases hx with rfl | rfl <;> rfl) ex_wf.2.2.1
+    (by intro x hx; simp at hx; rcases hx with rfl | rfl; exact ex_wf.1; exact ex_wf.2.1)
+    (fun _ => ex_storedAs.2.2)
+    (by intro x hx; simp at hx; rcases hx with rfl | rfl; exact ex_storedAs.1; exact exBit_storedAs_count)
+    (fun _ => ⟨ex_noZero.2.2, by intro x hx; simp at hx; rcases hx with rfl | rfl; exact ex_noZero.1; exact ex_noZero.2.1⟩)
+    (fun _ => ⟨ex_nonneg.2.2, by intro x hx; simp at hx; rcases hx with rfl | rfl; exact ex_nonneg.1; exact ex_nonneg.2.1⟩)
+    (fun _ => by decide)
+
+/-- `simFp_eq_def` applies -/
+example (m : Measure) : simFp m exCount exFloat = defSim m 8 (cntRow exCount) (cntRow exFloat) :=
+  simFp_eq_def m exCount exFloat ex_wf.1 ex_wf.2.2.1 rfl (fun _ => ⟨ex_noZero.1, ex_noZero.2.2⟩)
+
+/-- `dispatch_zero_denominator` applies: the empty fingerprint against a database, and against a fingerprint -/
+example (m : Measure) : ∃ r, metricDispatch m (.fp exEmpty) (some (.db exDb)) = .ok r ∧ AllZero r :=
+  dispatch_zero_denominator m exEmpty rfl (.db exDb) (by simp [Item.bits, exDb_facts.1, exDb_facts.2.2]; rfl)
+    (castable_of_inv _ _ exDb_facts.2.1) (fun g h => by cases h)
+
+example (m : Measure) : ∃ r, metricDispatch m (.fp exEmpty) (some (.fp exFloat)) = .ok r ∧ AllZero r :=
+  dispatch_zero_denominator m exEmpty rfl (.fp exFloat) rfl trivial
+    (fun g h => by cases h; exact ⟨ex_wf.2.2.2, ex_wf.2.2.1, fun _ => ex_nonneg.2.2⟩)
 
 end E3fpVerif.Props.C06
